@@ -229,11 +229,11 @@ def judge(sc, s, raw, res, cfg, sched_descr):
     for i, o in outs.items():
         if o[0].startswith("EXC:"):
             e = raw[i][1]
-            res.violation(f"{tag}/unmapped-exception/{o[0][4:]}", f"[{pair}] {sched_descr}: {sc.ops[i]} raised {o[0][4:]}: {e!r} (not one of ok / InvalidETag / DuplicateUid / NoSuchItem / Locked)", wit)
+            res.violation(f"{tag}/{'one-after-the-other/' if sched_descr.startswith('no pre-emption') else ''}unmapped-exception/{o[0][4:]}", f"[{pair}] {sched_descr}: {sc.ops[i]} raised {o[0][4:]}: {e!r} (not one of ok / InvalidETag / DuplicateUid / NoSuchItem / Locked)", wit)
     dup_reported = False
     if dup:
         dup_reported = True
-        res.violation(f"{tag}/duplicate-uid", f"[{pair}] {sched_descr}: two live resources share a UID: {dup!r}", wit)
+        res.violation(f"{tag}/{'one-after-the-other/' if sched_descr.startswith('no pre-emption') else ''}duplicate-uid", f"[{pair}] {sched_descr}: two live resources share a UID: {dup!r}", wit)
     locked = tuple(sorted(i for i, o in outs.items() if o[0] == "Locked"))
     live = tuple(i for i in range(len(sc.ops)) if i not in locked)
     acceptable = []
@@ -270,6 +270,9 @@ def judge(sc, s, raw, res, cfg, sched_descr):
         anomaly = classify_anomaly(sc, outs, fin, acceptable)
         if anomaly == "duplicate-uid" and dup_reported:
             return fin
+        if sched_descr.startswith("no pre-emption"):
+            # one operation ran to completion before the other started: none of the recorded races can explain this
+            anomaly = "one-after-the-other/" + anomaly
         res.violation(f"{tag}/{anomaly}", f"[{pair}] {sched_descr}: results {[(sc.ops[i], o[0]) for i, o in outs.items()]} with final members {fin['members']} equal no sequential execution of the "
                       f"non-refused operations (sequential outcomes: {[(o, {sc.ops[i]: x[0] for i, x in so.items()}) for o, so, sf in acceptable]})", wit)
     elif ok:
